@@ -1107,6 +1107,11 @@ def replay_generic(case, cand, uses_rng=False):
     if err is not None:
         return False, "plain run raised " + err
     msgs = []
+    if cand.get("label") in ("plain run at the explored point", "interpreter crash"):
+        # the whole plain outcome is judged, including its concrete facts (e.g. "an illegal argument is rejected")
+        for l, ok, detail in out.facts:
+            if not ok:
+                msgs.append("%s: %s" % (l, detail))
     for l, obs, exp in out.pairs:
         o, osh = flat_floats(obs)
         e, esh = flat_floats(exp)
